@@ -93,6 +93,7 @@ class PumpCf:
     def __init__(self, device):
         from cflib.utils.callbacks import Caller
         self.device = device
+        self.link = self        # connected (the memory subsystem refuses requests while there is no link)
         self.disconnected = Caller()
         self.queue = collections.deque()
         self.cbs = []
